@@ -30,6 +30,17 @@
 #define TR_AW(fi)      (&(fi)->resolve_tracer.base_awaiter)
 #define ST_NOT_VALUE 0
 #define ST_VALUE     1
+#define ST_EXCEPTION 3                                             /* future_common::State::exception (2 = value_ref: T& only, not reachable for T = int) */
+/* the stored std::exception_ptr of a future in State::exception: one pointer to the exception object (libstdc++ layout; the
+ * union of value / pointer / exception_ptr is translated as its largest member, a pointer).  Reference traffic on exception
+ * objects is counted by the exception primitives (lib/rt_core.c: gh_ep_addref / gh_ep_release). */
+#define EXC_LV(fi)     ((fi)->base_future.f1.f0)                    /* the raw lvalue (for PEQ) */
+#define EXC_OBJ(fi)    ((void *)(fi)->base_future.f1.f0)
+/* result states covered by the contracts: no value / value / stored exception */
+#define ST_COVERED(fi) (STATE(fi) <= ST_VALUE || (STATE(fi) == ST_EXCEPTION && EXC_OBJ(fi) != 0))
+#define GH_EP          gh_ep_addref, gh_ep_release
+/* "the stored exception_ptr is released exactly once, by whoever destroys the result" / "untouched otherwise" */
+#define EP_RELEASED_IFF(c) (gh_ep_addref == __CPROVER_old(gh_ep_addref) && gh_ep_release == __CPROVER_old(gh_ep_release) + ((c) ? 1u : 0u))
 #define IS_READY(fi)   (SLOT(fi) == AW_DISABLED)
 #define IS_PENDING(fi) (SLOT(fi) != AW_DISABLED && SLOT(fi) != AW_INSTANCE)
 #define TR_EMPTY(fi)   (T_OBJ(TR(fi)) == 0 && T_CB(TR(fi)) == 0)
@@ -82,6 +93,7 @@
 #endif
 /* logical variables */
 struct cv_sp_cb *gh_cb0, *gh_cb1; FI *gh_obj0; cv_i64 gh_c0, gh_c1; int gh_pend0, gh_tr0, gh_alias; AWT *gh_slot0;
+int gh_exc0; cv_i8 *gh_excblk; void *gh_excti;      /* entry: the state holds an exception / the exception object's block (header + object) / its type */
 
 /* ---------------------------------------------------------------- model instantiation (lib/model_sharedptr_cb.c) */
 #define CV_COMMA ,
@@ -143,7 +155,7 @@ void env_promise_fn(PFN *fn, PROMISE *p) {
   /* 2: left in place - the caller's ~promise() breaks it */
 }
 #endif
-#ifdef CV_HAS_env_future_fn
+#if defined(CV_HAS_env_future_fn) && !defined(C17_DRIVE)       /* the drive supplies its own (a really pending future whose real promise it keeps) */
 void env_future_fn(FUT *ret, FFN *fn) {
   gh_env_calls++; gh_env_owner = ret;
   FSTATE(ret) = ST_NOT_VALUE; ret->f1.f0 = 0;
@@ -204,13 +216,15 @@ __CPROVER_requires(MODEL_PRE && __CPROVER_is_fresh(ret, sizeof(*ret)))
 __CPROVER_requires(__CPROVER_is_fresh(gh_cb0, CV_SP_BLOCK_SIZE))
 __CPROVER_requires(PEQ(x, TR_AW(CB_FI(gh_cb0))))
 __CPROVER_requires(TR_SELF_PEQ(CB_FI(gh_cb0), gh_cb0) && gh_cb0->strong >= 1 && gh_cb0->strong < BIGCNT && gh_c0 == gh_cb0->strong)
-__CPROVER_requires(IS_READY(CB_FI(gh_cb0)) && STATE(CB_FI(gh_cb0)) <= ST_VALUE)           /* resolution has already swung the slot to `disabled` */
-__CPROVER_assigns(__CPROVER_object_whole(ret), __CPROVER_object_whole(gh_cb0), GH_SP)
+__CPROVER_requires(IS_READY(CB_FI(gh_cb0)) && ST_COVERED(CB_FI(gh_cb0)))                  /* resolution has already swung the slot to `disabled`; any result: none / value / exception */
+__CPROVER_requires(gh_exc0 == (STATE(CB_FI(gh_cb0)) == ST_EXCEPTION ? 1 : 0))
+__CPROVER_assigns(__CPROVER_object_whole(ret), __CPROVER_object_whole(gh_cb0), GH_SP, GH_EP)
 __CPROVER_frees(gh_cb0)
 __CPROVER_ensures(cv_exc_pending == 0 && gh_allocs == __CPROVER_old(gh_allocs))
 __CPROVER_ensures(ret->_count_flag == 0)                                                      /* resumes nothing */
 __CPROVER_ensures(REF_DROPPED(gh_c0, CB0_ALIVE_WITH, NOTHING_RELEASED, RELEASED_ONCE(gh_cb0)))  /* exactly the tracer's reference; every handle already gone: the tracer frees the state */
 __CPROVER_ensures(gh_c0 > 1 ==> TR_EMPTY(CB_FI(gh_cb0)))
+__CPROVER_ensures(EP_RELEASED_IFF(gh_c0 == 1 && gh_exc0))                                     /* a stored exception is released exactly when the state is destroyed - once */
 ;
 #endif
 
@@ -219,15 +233,18 @@ __CPROVER_ensures(gh_c0 > 1 ==> TR_EMPTY(CB_FI(gh_cb0)))
 void sf_dtor(SF *this_)
 __CPROVER_requires(MODEL_PRE && __CPROVER_is_fresh(this_, sizeof(*this_)))
 REQ_H_SHAPE(this_, 1)
-__CPROVER_requires(H_CB(this_) != 0 ==> STATE(H_OBJ(this_)) <= ST_VALUE)
+__CPROVER_requires(H_CB(this_) != 0 ==> ST_COVERED(H_OBJ(this_)))
 __CPROVER_requires(PEQ(gh_cb0, H_CB(this_)) && (gh_cb0 != 0 ==> (gh_c0 == gh_cb0->strong && gh_pend0 == (IS_PENDING(CB_FI(gh_cb0)) ? 1 : 0))))
-__CPROVER_assigns(GH_SP)
+__CPROVER_requires(gh_exc0 == ((gh_cb0 != 0 && STATE(CB_FI(gh_cb0)) == ST_EXCEPTION) ? 1 : 0))
+__CPROVER_assigns(GH_SP, GH_EP)
 __CPROVER_assigns(H_CB(this_) != 0: __CPROVER_object_whole(H_CB(this_)))
 __CPROVER_frees(H_CB(this_))
 __CPROVER_ensures(cv_exc_pending == 0 && gh_allocs == __CPROVER_old(gh_allocs))
 __CPROVER_ensures(gh_cb0 == 0 ==> NOTHING_RELEASED)
 __CPROVER_ensures((gh_cb0 != 0 && gh_pend0) ==> gh_c0 > 1)                                   /* pending => never the last reference */
 __CPROVER_ensures(gh_cb0 != 0 ==> REF_DROPPED(gh_c0, CB0_ALIVE_WITH, NOTHING_RELEASED, RELEASED_ONCE(gh_cb0)))
+__CPROVER_ensures(EP_RELEASED_IFF(gh_cb0 != 0 && gh_c0 == 1 && gh_exc0))                      /* the stored exception_ptr is released exactly once: by the last owner, together with the state */
+__CPROVER_ensures((gh_cb0 != 0 && gh_c0 > 1 && gh_exc0) ==> (STATE(CB_FI(gh_cb0)) == ST_EXCEPTION && EXC_OBJ(CB_FI(gh_cb0)) == __CPROVER_old(EXC_OBJ(CB_FI(gh_cb0)))))   /* ... and stays in place for the remaining copies */
 ;
 #endif
 
@@ -259,10 +276,11 @@ __CPROVER_requires(gh_alias ==> (PEQ(H_PI(src), H_CB(this_)) && PEQ(H_OBJ(src), 
 __CPROVER_requires((!gh_alias && H_CB(src) != 0) ==> __CPROVER_is_fresh(H_CB(src), CV_SP_BLOCK_SIZE))
 __CPROVER_requires((!gh_alias && H_CB(src) != 0) ==> H_WF(src, 1))
 __CPROVER_requires((!gh_alias && H_CB(src) == 0) ==> H_OBJ(src) == 0)
-__CPROVER_requires(H_CB(this_) != 0 ==> STATE(H_OBJ(this_)) <= ST_VALUE)
+__CPROVER_requires(H_CB(this_) != 0 ==> ST_COVERED(H_OBJ(this_)))
 __CPROVER_requires(PEQ(gh_cb0, H_CB(this_)) && (gh_cb0 != 0 ==> gh_c0 == gh_cb0->strong))
 __CPROVER_requires(PEQ(gh_cb1, H_CB(src)) && PEQ(gh_obj0, H_OBJ(src)) && (gh_cb1 != 0 ==> gh_c1 == gh_cb1->strong))
-__CPROVER_assigns(__CPROVER_object_whole(this_), GH_SP)
+__CPROVER_requires(gh_exc0 == ((gh_cb0 != 0 && STATE(CB_FI(gh_cb0)) == ST_EXCEPTION) ? 1 : 0))
+__CPROVER_assigns(__CPROVER_object_whole(this_), GH_SP, GH_EP)
 __CPROVER_assigns(H_CB(this_) != 0: __CPROVER_object_whole(H_CB(this_)))
 __CPROVER_assigns(H_CB(src) != 0: H_CB(src)->strong)
 __CPROVER_frees(H_CB(this_))
@@ -272,6 +290,7 @@ __CPROVER_ensures((gh_cb1 != 0 && gh_cb1 != gh_cb0) ==> REF_ADDED(gh_c1, CB1_ALI
 __CPROVER_ensures((gh_cb1 != 0 && gh_cb1 == gh_cb0) ==> (gh_cb1->strong == gh_c1 && NOTHING_RELEASED))
 __CPROVER_ensures((gh_cb0 != 0 && gh_cb0 != gh_cb1) ==> REF_DROPPED(gh_c0, CB0_ALIVE_WITH, NOTHING_RELEASED, RELEASED_ONCE(gh_cb0)))
 __CPROVER_ensures(gh_cb0 == 0 ==> NOTHING_RELEASED)
+__CPROVER_ensures(EP_RELEASED_IFF(gh_cb0 != 0 && gh_cb0 != gh_cb1 && gh_c0 == 1 && gh_exc0))  /* the previous state's stored exception: released once iff this was its last owner */
 ;
 #endif
 
@@ -315,9 +334,44 @@ __CPROVER_ensures(SI(H_CB(this_)))
 ;
 #endif
 
+/* ---- operator<<(Fn) with Fn() -> future<int> ("same as result_of"): re-targets the shared state of this handle to the operation
+ *      started by fn.  Clause from the property statement (not from the code): "the shared state stays alive until it has been
+ *      resolved even if every handle is dropped while it is still pending" - i.e. operator<< must keep the state invariant SI
+ *      like every other member: if the future is pending afterwards the tracer holds its self-reference (strong + 1, subscribed
+ *      with the reference-dropping lambda), if it is already resolved the tracer holds nothing.
+ *      Preconditions (stated, also in META assumptions):
+ *        - the handle is not empty: the class documentation asks for init_if_needed() / get_promise() on a default-constructed
+ *          object before anything else is done with it;
+ *        - the future of the state is not pending: future::result_of destroys and re-creates the future in place, and a pending
+ *          future must not be destroyed (future_common: "Destroy of pending future"). */
+#ifdef CV_HAS_sf_shift
+SF *sf_shift(SF *this_, FFN *fn)
+__CPROVER_requires(MODEL_PRE && __CPROVER_is_fresh(this_, sizeof(*this_)) && __CPROVER_is_fresh(fn, sizeof(*fn)))
+REQ_H_FRESH(this_, 1)                                                                      /* documented precondition: initialised (non-empty) handle */
+__CPROVER_requires(!IS_PENDING(H_OBJ(this_)) && TR_AW(H_OBJ(this_))->_next == 0)             /* documented precondition: not pending (fresh from init_if_needed(), or resolved) */
+__CPROVER_requires(ST_COVERED(H_OBJ(this_)) && gh_exc0 == (STATE(H_OBJ(this_)) == ST_EXCEPTION ? 1 : 0))
+__CPROVER_requires(PEQ(gh_cb0, H_CB(this_)) && PEQ(gh_obj0, H_OBJ(this_)) && gh_c0 == gh_cb0->strong)
+__CPROVER_requires(gh_env_choice >= 0 && gh_env_choice <= 2 && gh_env_calls == 0 && gh_sub_calls == 0 && gh_sub_ok == 0)
+__CPROVER_assigns(__CPROVER_object_whole(H_CB(this_)), GH_ENV, GH_SUB, GH_PDTOR, GH_EP, cv_exc_obj, cv_exc_tinfo)
+__CPROVER_ensures(cv_exc_pending == 0 && __CPROVER_return_value == this_)
+__CPROVER_ensures(gh_allocs == __CPROVER_old(gh_allocs) && gh_frees == __CPROVER_old(gh_frees))
+__CPROVER_ensures(H_CB(this_) == gh_cb0 && H_OBJ(this_) == gh_obj0)                          /* still the same shared state (every copy sees the new operation) */
+__CPROVER_ensures(gh_env_calls == 1 && gh_env_owner == FUT_OF(gh_obj0))                     /* the result of fn() is constructed in the shared state */
+__CPROVER_ensures((gh_env_choice == 0) == (IS_PENDING(gh_obj0) ? 1 : 0))
+__CPROVER_ensures(TRACER_CHARGED(gh_env_choice == 0, gh_c0, TRC(gh_cb0), CB0_ALIVE_WITH))    /* SI kept: pending ==> the tracer holds ONE extra reference (alive with no handle left); resolved ==> none */
+__CPROVER_ensures(TRC(gh_cb0) == 1 ==> (SLOT(gh_obj0) == TR_AW(gh_obj0) && TR_AW(gh_obj0)->_next == 0 && TR_AW(gh_obj0)->_resume_fn == tr_invoke))   /* no leak: a reference held by the tracer is one that resolution will drop (subscribed first, with the reference-dropping lambda) */
+__CPROVER_ensures(gh_env_choice != 0 ==> (IS_READY(gh_obj0) && TR_EMPTY(gh_obj0)))
+__CPROVER_ensures(gh_env_choice == 1 ==> (STATE(gh_obj0) == ST_VALUE && VALUE(gh_obj0) == gh_env_val))
+__CPROVER_ensures(gh_env_choice == 2 ==> STATE(gh_obj0) == ST_NOT_VALUE)
+__CPROVER_ensures(EP_RELEASED_IFF(gh_exc0))                                                   /* a stored exception of the replaced result is released exactly once */
+;
+#endif
+
 /* ---- init_if_needed(): an empty handle gets a fresh, initialised, not yet pending state; an initialised one is untouched */
+/* a state created by init_if_needed(): exists, no promise taken yet, tracer not charged.  What its awaiter slot holds is stated
+ * separately by the contract that uses this shape (nobody awaits yet: &awaiter::instance / somebody already does: see get_promise) */
 #define H_INITIALISED(h, n) (PEQ(H_OBJ(h), CB_FI(H_CB(h))) && H_CB(h)->strong >= (n) && H_CB(h)->strong < BIGCNT && \
-                             SLOT(H_OBJ(h)) == AW_INSTANCE && STATE(H_OBJ(h)) == ST_NOT_VALUE && TR_EMPTY(H_OBJ(h)) && TR_AW(H_OBJ(h))->_next == 0)
+                             STATE(H_OBJ(h)) == ST_NOT_VALUE && TR_EMPTY(H_OBJ(h)) && TR_AW(H_OBJ(h))->_next == 0)
 #define REQ_H_EMPTY_OR_INITIALISED(h) \
   __CPROVER_requires(H_CB(h) != 0 ==> __CPROVER_is_fresh(H_CB(h), CV_SP_BLOCK_SIZE)) \
   __CPROVER_requires(H_CB(h) != 0 ==> H_INITIALISED(h, 1)) \
@@ -342,20 +396,48 @@ __CPROVER_ensures(gh_cb0 != 0 ==> (gh_allocs == __CPROVER_old(gh_allocs) && H_CB
 #ifndef GP_CASE_PRE
 #define GP_CASE_PRE(h) 1            /* units split the two cases: (H_CB(h) == 0) / (H_CB(h) != 0) */
 #endif
+/* Who may already await the state when get_promise() is called on an initialised handle (units get_promise_initialised /
+ * get_promise_early_awaiter).  init_if_needed() exists so that copies can be handed out BEFORE the promise is taken; a consumer
+ * holding such a copy cannot tell whether the producer has already called get_promise() (ready() is false either way) and
+ * awaiter::subscribe ACCEPTS it (pushed in front of &awaiter::instance, returns true).  The property statement says "every awaiter
+ * of any copy is resumed exactly once" and names late initialisation through get_promise() - so the case is NOT excluded here:
+ *   GP_EARLY 0: nobody awaits yet - the slot holds &awaiter::instance
+ *   GP_EARLY 1: ONE awaiter (gh_early) was accepted before get_promise(): slot -> gh_early -> &awaiter::instance.  Clause from the
+ *               property: it is still subscribed afterwards (so that the resolution resumes it).  On the unchanged tree this clause
+ *               FAILS (future::get_promise overwrites the slot: exchange(nullptr), the result is only looked at by a debug assert
+ *               "Invalid future state"): open known finding, marker C17-FINDING-await-before-get-promise. */
+#ifndef GP_EARLY
+#define GP_EARLY 0
+#endif
+AWT *gh_early;
 void sf_get_promise(PROMISE *ret, SF *this_)
 __CPROVER_requires(MODEL_PRE && __CPROVER_is_fresh(ret, sizeof(*ret)) && __CPROVER_is_fresh(this_, sizeof(*this_)) && GP_CASE_PRE(this_))
 REQ_H_EMPTY_OR_INITIALISED(this_)
+#if GP_EARLY
+__CPROVER_requires(H_CB(this_) != 0 ==> __CPROVER_is_fresh(gh_early, sizeof(*gh_early)))
+__CPROVER_requires(H_CB(this_) != 0 ==> (PEQ(SLOT(H_OBJ(this_)), gh_early) && PEQ(gh_early->_next, AW_INSTANCE)))     /* accepted by subscribe() before the promise was taken */
+#else
+__CPROVER_requires(H_CB(this_) != 0 ==> SLOT(H_OBJ(this_)) == AW_INSTANCE)                                          /* nobody awaits yet */
+#endif
 __CPROVER_requires(PEQ(gh_cb0, H_CB(this_)) && PEQ(gh_obj0, H_OBJ(this_)) && (gh_cb0 != 0 ==> gh_c0 == gh_cb0->strong))
 __CPROVER_requires(gh_sub_calls == 0 && gh_sub_ok == 0 && gh_promise_drops == 0)
 __CPROVER_assigns(__CPROVER_object_whole(ret), __CPROVER_object_whole(this_), GH_MAKE, GH_SUB, GH_PDTOR)
 __CPROVER_assigns(H_CB(this_) != 0: __CPROVER_object_whole(H_CB(this_)))
+#if GP_EARLY
+__CPROVER_assigns(H_CB(this_) != 0: __CPROVER_object_whole(gh_early))                         /* a repair may relink the early awaiter */
+#endif
 __CPROVER_ensures(cv_exc_pending == 0 && gh_frees == __CPROVER_old(gh_frees) && gh_promise_drops == 0)
 __CPROVER_ensures(H_LIVE(this_))
 __CPROVER_ensures(gh_cb0 == 0 ==> (gh_allocs == __CPROVER_old(gh_allocs) + 1 && CREATED(1, TRC(H_CB(this_)), THIS_ALIVE_WITH)))   /* default-constructed: state created; handle + tracer */
 __CPROVER_ensures(gh_cb0 != 0 ==> (gh_allocs == __CPROVER_old(gh_allocs) && H_CB(this_) == gh_cb0 && H_OBJ(this_) == gh_obj0 && TRACER_CHARGED(1, gh_c0, TRC(H_CB(this_)), THIS_ALIVE_WITH)))
 __CPROVER_ensures(ret->_owner._M_b._M_p == FUT_OF(H_OBJ(this_)))                                                     /* promise bound to the shared state */
 __CPROVER_ensures(IS_PENDING(H_OBJ(this_)) && TR_SELF(H_OBJ(this_), H_CB(this_)) && SI(H_CB(this_)))
+#if GP_EARLY
+__CPROVER_ensures(gh_sub_ok == 1 && TR_AW(H_OBJ(this_))->_resume_fn == tr_invoke)
+__CPROVER_ensures(gh_cb0 != 0 ==> (SLOT(H_OBJ(this_)) == gh_early || (SLOT(H_OBJ(this_)) != 0 && SLOT(H_OBJ(this_))->_next == gh_early)))   /* C17-FINDING-await-before-get-promise: the awaiter accepted earlier is still subscribed */
+#else
 __CPROVER_ensures(gh_sub_ok == 1 && SLOT(H_OBJ(this_)) == TR_AW(H_OBJ(this_)) && TR_AW(H_OBJ(this_))->_next == 0 && TR_AW(H_OBJ(this_))->_resume_fn == tr_invoke)
+#endif
 ;
 #endif
 
@@ -375,12 +457,20 @@ __CPROVER_ensures(cv_exc_pending == 0 && __CPROVER_return_value == ((H_CB(this_)
 cv_i32 *sf_value(SF *this_)
 __CPROVER_requires(MODEL_PRE && __CPROVER_is_fresh(this_, sizeof(*this_)))
 REQ_H_SHAPE(this_, 1)
-__CPROVER_requires(H_CB(this_) != 0 ==> STATE(H_OBJ(this_)) <= ST_VALUE)                    /* value / no value; stored exception and reference states: not covered */
-__CPROVER_requires(gh_cb0 == H_CB(this_))
-__CPROVER_assigns(cv_exc_pending, cv_exc_obj, cv_exc_tinfo)
+__CPROVER_requires(H_CB(this_) != 0 ==> (STATE(H_OBJ(this_)) <= ST_VALUE || STATE(H_OBJ(this_)) == ST_EXCEPTION))   /* no value / value / stored exception (reference state: T& only) */
+/* a stored exception designates a live exception object of the exception model: [16-byte header holding its type | object] */
+__CPROVER_requires((H_CB(this_) != 0 && STATE(H_OBJ(this_)) == ST_EXCEPTION) ==> __CPROVER_is_fresh(gh_excblk, CV_EXC_HDR + 8))
+__CPROVER_requires((H_CB(this_) != 0 && STATE(H_OBJ(this_)) == ST_EXCEPTION) ==> (PEQ(EXC_LV(H_OBJ(this_)), gh_excblk + CV_EXC_HDR) && gh_excti == *(void **)gh_excblk))
+__CPROVER_requires(gh_cb0 == H_CB(this_) && gh_exc0 == ((H_CB(this_) != 0 && STATE(H_OBJ(this_)) == ST_EXCEPTION) ? 1 : 0))
+__CPROVER_assigns(cv_exc_pending, cv_exc_obj, cv_exc_tinfo, GH_EP)
 __CPROVER_ensures((H_CB(this_) != 0 && STATE(H_OBJ(this_)) == ST_VALUE) ==> (cv_exc_pending == 0 && __CPROVER_return_value == &VALUE(H_OBJ(this_))))
 __CPROVER_ensures(H_CB(this_) == 0 ==> (cv_exc_pending == 1 && cv_exc_tinfo == (void *)TI_NOT_READY))
 __CPROVER_ensures((H_CB(this_) != 0 && STATE(H_OBJ(this_)) == ST_NOT_VALUE) ==> (cv_exc_pending == 1 && cv_exc_tinfo == (IS_PENDING(H_OBJ(this_)) ? (void *)TI_NOT_READY : (void *)TI_CANCELED)))
+/* stored exception: EVERY copy (they all designate this one state: copy_ctor / copy_assign) rethrows the SAME exception object - the one
+ * stored in the shared state -, the stored exception_ptr stays in place, and the reference taken for the rethrow is given back */
+__CPROVER_ensures(gh_exc0 ==> (cv_exc_pending == 1 && cv_exc_obj == (void *)(gh_excblk + CV_EXC_HDR) && cv_exc_tinfo == gh_excti))
+__CPROVER_ensures(gh_exc0 ==> (STATE(H_OBJ(this_)) == ST_EXCEPTION && EXC_OBJ(H_OBJ(this_)) == (void *)(gh_excblk + CV_EXC_HDR)))
+__CPROVER_ensures(gh_ep_addref - __CPROVER_old(gh_ep_addref) == gh_ep_release - __CPROVER_old(gh_ep_release) && gh_ep_addref - __CPROVER_old(gh_ep_addref) <= (gh_exc0 ? 1u : 0u))
 ;
 #endif
 
